@@ -22,6 +22,7 @@ the drawn Maximum Response Size in the final request.  The final request is run 
 fresh connection to a fresh server opened on a copy of the database taken when the first byte of
 the final frame was requested.
 """
+import copy
 import bisect
 import json
 import logging
@@ -1261,6 +1262,10 @@ def case_strategy():
 
     @st.composite
     def request(draw, final=False):
+        if final and draw(st.integers(0, 9)) == 0:
+            # a valid request whose result the codec refuses to write (the answer is an error made
+            # by the session): the size limit of the request applies to that answer too
+            return copy.deepcopy(known[draw(st.integers(0, 1))]["req"])
         v = draw(st.sampled_from(H.VERSIONS))
         pv = P[v]
         if final:
